@@ -5,9 +5,15 @@
 //!
 //! Case: `glue <session profile cons> <session profile serial N|Serial|LocalSerial> <statement profile -|Cons/Serial>
 //!        <timestamp generator N|i64> <driver name N|hex> <driver version N|hex> <app name N|hex> <app version N|hex>
-//!        <client id N|hex> <op> <cons|N> <serial D|N|Serial|LocalSerial> <ts|N> <tracing 0|1> <page size> <pages>`
-//! `<op>`: query_unpaged | query_page | query_iter | execute_unpaged | execute_page | execute_iter | batch.
-//! Output: `identity=<k=v,... sorted hex> frames=<n> <opcode>:<consistency>:<serial|->:<page size|->:<tracing bit>:<timestamp|->:<paging state|->...`
+//!        <client id N|hex> <op> <cons|N> <serial D|N|Serial|LocalSerial> <ts|N> <tracing 0|1> <page size> <pages>
+//!        <via> <use cached metadata 0|1> <id of the prepared INSERT>,<id of the second batch statement>`
+//! `<op>`: query_{unpaged,page,iter} (no values) | queryv_{unpaged,page,iter} (`Session::query_*` WITH values: PREPARE +
+//! EXECUTE) | execute_{unpaged,page,iter} | batch.  `<via>` (execute_* / batch): `handle` = prepare `Statement::new(text)`,
+//! configure the prepared handle; `stmt` = configure the Statement, then `Session::prepare(stmt)` (the handle must inherit
+//! everything); `cmiss` / `chit` = `CachingSession::execute_*` / `batch` with the configured Statement on a cold cache / after a
+//! warm-up call with a DIFFERENT configuration (cache hit: `make_configured_handle`); `-` for query*/queryv*.
+//! Output: `identity=<k=v,... sorted hex> ptr=<tracing bit of the PREPARE frames 0|1|x|-> frames=<n>
+//! <opcode>:<consistency>:<serial|->:<page size|->:<tracing bit>:<timestamp|->:<paging state|N>:<skip_metadata 0|1|->[:<BATCH body hex>]...`
 //! or `e2e-skip <why>` when the session could not be built (overloaded machine; judged by nothing, echoed by the model).
 use super::*;
 use crate::e2e::common::{INSERT, SELECT, SELECT_ALL, Shape, Strat, connect, row_specs, with_std_prepare};
@@ -41,6 +47,8 @@ struct Glue {
     tracing: bool,
     page_size: i32,
     pages: usize,
+    via: String,
+    uc: bool,
 }
 
 fn serial_opt(s: &str) -> Option<Option<SerialConsistency>> {
@@ -52,8 +60,10 @@ fn serial_opt(s: &str) -> Option<Option<SerialConsistency>> {
     }
 }
 
+pub(super) const TEXT2: &str = "INSERT INTO ks.t (pk, v) VALUES (0x00, 0)";
+
 fn parse(w: &[&str]) -> Option<Glue> {
-    if w.len() != 17 || w[0] != "glue" {
+    if w.len() != 20 || w[0] != "glue" {
         return None;
     }
     let stmt_prof = if w[3] == "-" {
@@ -85,8 +95,23 @@ fn parse(w: &[&str]) -> Option<Glue> {
         },
         page_size: w[15].parse().ok().filter(|p| *p > 0)?,
         pages: w[16].parse().ok().filter(|p| (1..=20).contains(p))?,
+        via: w[17].to_string(),
+        uc: match w[18] {
+            "0" => false,
+            "1" => true,
+            _ => return None,
+        },
     };
-    if !["query_unpaged", "query_page", "query_iter", "execute_unpaged", "execute_page", "execute_iter", "batch"].contains(&g.op.as_str()) {
+    let plain = ["query_unpaged", "query_page", "query_iter", "queryv_unpaged", "queryv_page", "queryv_iter"];
+    let exec = ["execute_unpaged", "execute_page", "execute_iter"];
+    let ok = (plain.contains(&g.op.as_str()) && g.via == "-" && !g.uc)
+        || (exec.contains(&g.op.as_str()) && ["handle", "stmt", "cmiss", "chit"].contains(&g.via.as_str()))
+        || (g.op == "batch" && ["handle", "cmiss", "chit"].contains(&g.via.as_str()) && !g.uc);
+    if !ok {
+        return None;
+    }
+    // the ids the mock answers PREPARE with (part of the case so that the model can build the BATCH body)
+    if w[19] != format!("{},{}", hex(&crate::mocknode::md5ish(INSERT)), hex(&crate::mocknode::md5ish(TEXT2))) {
         return None;
     }
     if g.identity.iter().flatten().any(|s| s.len() > 200) {
@@ -119,7 +144,7 @@ pub(super) fn run(case_line: &str, ctx: &mut Ctx) -> String {
     });
     let rt = runtime(1);
     let g2 = g.clone();
-    let frames: Result<Vec<Req>, String> = rt.block_on(async move {
+    let frames: Result<(Vec<Req>, usize), String> = rt.block_on(async move {
         let g = g2;
         let cluster = MockCluster::start(shape.topology(), handler).await;
         let mut identity = SelfIdentity::new();
@@ -162,69 +187,113 @@ pub(super) fn run(case_line: &str, ctx: &mut Ctx) -> String {
                 $s.set_execution_profile_handle(stmt_handle.clone());
             }};
         }
+        macro_rules! drain {
+            ($p:expr) => {{
+                if let Ok(p) = $p {
+                    if let Ok(mut s) = p.rows_stream::<scylla::value::Row>() {
+                        while let Some(r) = s.next().await {
+                            if r.is_err() {
+                                break;
+                            }
+                        }
+                    }
+                }
+            }};
+        }
         use futures::StreamExt;
-        match g.op.as_str() {
-            "query_unpaged" | "query_page" | "query_iter" => {
-                let mut st = Statement::new(SELECT_ALL);
-                configure!(st);
-                st.set_page_size(g.page_size);
-                match g.op.as_str() {
-                    "query_unpaged" => {
-                        let _ = session.query_unpaged(st, ()).await;
+        use scylla::client::caching_session::CachingSessionBuilder;
+        use scylla::response::PagingState as PS;
+        let kind = g.op.rsplit('_').next().unwrap_or("").to_string(); // unpaged | page | iter | batch
+        let mut mark = 0usize;
+        if g.op.starts_with("query") {
+            let with_values = g.op.starts_with("queryv");
+            let mut st = Statement::new(if with_values { SELECT } else { SELECT_ALL });
+            configure!(st);
+            st.set_page_size(g.page_size);
+            match (kind.as_str(), with_values) {
+                ("unpaged", false) => drop(session.query_unpaged(st, ()).await),
+                ("page", false) => drop(session.query_single_page(st, (), PS::start()).await),
+                ("iter", false) => drain!(session.query_iter(st, ()).await),
+                ("unpaged", true) => drop(session.query_unpaged(st, (vec![1u8, 2],)).await),
+                ("page", true) => drop(session.query_single_page(st, (vec![1u8, 2],), PS::start()).await),
+                _ => drain!(session.query_iter(st, (vec![1u8, 2],)).await),
+            }
+        } else if g.op.starts_with("execute") {
+            match g.via.as_str() {
+                "handle" | "stmt" => {
+                    let ps = if g.via == "handle" {
+                        // prepare a bare statement, configure the handle
+                        let Ok(mut ps) = session.prepare(SELECT).await else { return Err("e2e-skip prepare-failed".to_string()) };
+                        configure!(ps);
+                        ps.set_page_size(g.page_size);
+                        ps.set_use_cached_result_metadata(g.uc);
+                        ps
+                    } else {
+                        // configure the statement, then prepare: the handle must inherit everything
+                        let mut st = Statement::new(SELECT);
+                        configure!(st);
+                        st.set_page_size(g.page_size);
+                        let Ok(mut ps) = session.prepare(st).await else { return Err("e2e-skip prepare-failed".to_string()) };
+                        ps.set_use_cached_result_metadata(g.uc);
+                        ps
+                    };
+                    match kind.as_str() {
+                        "unpaged" => drop(session.execute_unpaged(&ps, (vec![1u8, 2],)).await),
+                        "page" => drop(session.execute_single_page(&ps, (vec![1u8, 2],), PS::start()).await),
+                        _ => drain!(session.execute_iter(ps, (vec![1u8, 2],)).await),
                     }
-                    "query_page" => {
-                        let _ = session.query_single_page(st, (), scylla::response::PagingState::start()).await;
+                }
+                _ => {
+                    let caching = CachingSessionBuilder::new(session).max_capacity(8).use_cached_result_metadata(g.uc).build();
+                    if g.via == "chit" {
+                        // warm the cache with a differently configured statement of the same text
+                        let mut warm = Statement::new(SELECT);
+                        warm.set_consistency(Consistency::Any);
+                        warm.set_serial_consistency(Some(SerialConsistency::Serial));
+                        warm.set_timestamp(Some(-1));
+                        warm.set_page_size(3);
+                        let _ = caching.execute_unpaged(warm, (vec![9u8],)).await;
+                        mark = cluster.frames().len();
                     }
-                    _ => {
-                        if let Ok(p) = session.query_iter(st, ()).await {
-                            if let Ok(mut s) = p.rows_stream::<scylla::value::Row>() {
-                                while let Some(r) = s.next().await {
-                                    if r.is_err() {
-                                        break;
-                                    }
-                                }
-                            }
-                        }
+                    let mut st = Statement::new(SELECT);
+                    configure!(st);
+                    st.set_page_size(g.page_size);
+                    match kind.as_str() {
+                        "unpaged" => drop(caching.execute_unpaged(st, (vec![1u8, 2],)).await),
+                        "page" => drop(caching.execute_single_page(st, (vec![1u8, 2],), PS::start()).await),
+                        _ => drain!(caching.execute_iter(st, (vec![1u8, 2],)).await),
                     }
                 }
             }
-            "execute_unpaged" | "execute_page" | "execute_iter" => {
-                let Ok(mut ps) = session.prepare(SELECT).await else { return Err("e2e-skip prepare-failed".to_string()) };
-                configure!(ps);
-                ps.set_page_size(g.page_size);
-                match g.op.as_str() {
-                    "execute_unpaged" => {
-                        let _ = session.execute_unpaged(&ps, (vec![1u8, 2],)).await;
-                    }
-                    "execute_page" => {
-                        let _ = session.execute_single_page(&ps, (vec![1u8, 2],), scylla::response::PagingState::start()).await;
-                    }
-                    _ => {
-                        if let Ok(p) = session.execute_iter(ps, (vec![1u8, 2],)).await {
-                            if let Ok(mut s) = p.rows_stream::<scylla::value::Row>() {
-                                while let Some(r) = s.next().await {
-                                    if r.is_err() {
-                                        break;
-                                    }
-                                }
-                            }
-                        }
-                    }
-                }
-            }
-            _ => {
+        } else {
+            let mut b = SBatch::new(BatchType::Unlogged);
+            if g.via == "handle" {
                 let Ok(ps) = session.prepare(INSERT).await else { return Err("e2e-skip prepare-failed".to_string()) };
-                let mut b = SBatch::new(BatchType::Unlogged);
                 b.append_statement(ps);
-                b.append_statement(Statement::new("INSERT INTO ks.t (pk, v) VALUES (0x00, 0)"));
+                b.append_statement(Statement::new(TEXT2));
                 configure!(b);
                 let _ = session.batch(&b, ((vec![1u8, 2], 5i32), ())).await;
+            } else {
+                let caching = CachingSessionBuilder::new(session).max_capacity(8).build();
+                if g.via == "chit" {
+                    let mut warm = SBatch::new(BatchType::Unlogged);
+                    warm.append_statement(Statement::new(INSERT));
+                    warm.append_statement(Statement::new(TEXT2));
+                    warm.set_consistency(Consistency::Any);
+                    warm.set_timestamp(Some(-1));
+                    let _ = caching.batch(&warm, ((vec![9u8], 1i32), ())).await;
+                    mark = cluster.frames().len();
+                }
+                b.append_statement(Statement::new(INSERT));
+                b.append_statement(Statement::new(TEXT2));
+                configure!(b);
+                let _ = caching.batch(&b, ((vec![1u8, 2], 5i32), ())).await;
             }
         }
         tokio::time::sleep(std::time::Duration::from_millis(2)).await;
-        Ok(cluster.frames())
+        Ok((cluster.frames(), mark))
     });
-    let frames = match frames {
+    let (frames, mark) = match frames {
         Ok(f) => f,
         Err(skip) => return skip,
     };
@@ -271,75 +340,122 @@ pub(super) fn run(case_line: &str, ctx: &mut Ctx) -> String {
     .map(spec_serial_code);
     let want_ts = g.ts.or(g.genr);
     let paged = !g.op.ends_with("unpaged") && g.op != "batch";
+    let judged: Vec<&Req> = frames.iter().skip(mark).filter(|f| !f.internal).collect();
+    // PREPARE frames of the judged call: their tracing flag is the statement's when the configured statement is what
+    // gets prepared (queryv_*, via=stmt, cache miss); a bare `Statement::new(text)` is prepared untraced (via=handle)
+    let preps: Vec<bool> = judged.iter().filter(|f| f.opcode == 0x09).map(|f| f.flags & 0x02 != 0).collect();
+    let ptr = if preps.is_empty() { "-" } else if preps.iter().all(|b| *b) { "1" } else if preps.iter().all(|b| !*b) { "0" } else { "x" };
+    let stmt_prepared_here = g.op.starts_with("queryv") || g.via == "stmt" || g.via == "cmiss";
+    if stmt_prepared_here && g.via != "cmiss" || (g.via == "cmiss" && g.op != "batch") {
+        let want = if g.tracing { "1" } else { "0" };
+        if ptr != want {
+            ctx.fail(format!("PREPARE frames of a statement with set_tracing({}) carry tracing bit(s) `{ptr}`", g.tracing));
+        }
+    }
     let mut out = Vec::new();
     let mut n = 0usize;
-    for f in frames.iter().filter(|f| !f.internal) {
-        let (cons, serial, ps, ts, paging) = match &f.parsed {
-            Parsed::Query { params, .. } | Parsed::Execute { params, .. } => {
-                (params.consistency, params.serial_consistency, params.page_size, params.timestamp, params.paging_state.clone())
-            }
-            Parsed::Batch { consistency, serial_consistency, timestamp, .. } => (*consistency, *serial_consistency, None, *timestamp, None),
+    for f in judged.iter() {
+        let (cons, serial, ps, ts, paging, skip) = match &f.parsed {
+            Parsed::Query { params, .. } | Parsed::Execute { params, .. } => (
+                params.consistency,
+                params.serial_consistency,
+                params.page_size,
+                params.timestamp,
+                params.paging_state.clone(),
+                Some(params.skip_metadata),
+            ),
+            Parsed::Batch { consistency, serial_consistency, timestamp, .. } => (*consistency, *serial_consistency, None, *timestamp, None, None),
             _ => continue,
         };
         if cons != want_cons {
-            ctx.fail(format!("frame {n} of `{}` carries consistency {cons:#06x}; statement {:?}, statement profile {:?}, session profile {:?}", g.op, g.cons, g.stmt_prof.map(|p| p.0), g.sess_cons));
+            ctx.fail(format!("frame {n} of `{}` via {} carries consistency {cons:#06x}; statement {:?}, statement profile {:?}, session profile {:?}", g.op, g.via, g.cons, g.stmt_prof.map(|p| p.0), g.sess_cons));
         }
         if serial != want_serial {
-            ctx.fail(format!("frame {n} of `{}` carries serial consistency {serial:?}; statement {:?}, statement profile {:?}, session profile {:?}", g.op, g.serial, g.stmt_prof.map(|p| p.1), g.sess_serial));
+            ctx.fail(format!("frame {n} of `{}` via {} carries serial consistency {serial:?}; statement {:?}, statement profile {:?}, session profile {:?}", g.op, g.via, g.serial, g.stmt_prof.map(|p| p.1), g.sess_serial));
         }
         if ts != want_ts {
-            ctx.fail(format!("frame {n} carries timestamp {ts:?}; statement {:?}, generator {:?}", g.ts, g.genr));
+            ctx.fail(format!("frame {n} of `{}` via {} carries timestamp {ts:?}; statement {:?}, generator {:?}", g.op, g.via, g.ts, g.genr));
         }
         if ps != paged.then_some(g.page_size) {
-            ctx.fail(format!("frame {n} of `{}` carries page size {ps:?}; statement page size {}", g.op, g.page_size));
+            ctx.fail(format!("frame {n} of `{}` via {} carries page size {ps:?}; statement page size {}", g.op, g.via, g.page_size));
         }
         if (f.flags & 0x02 != 0) != g.tracing {
-            ctx.fail(format!("frame {n}: tracing flag {} but set_tracing({})", f.flags & 0x02 != 0, g.tracing));
+            ctx.fail(format!("frame {n} of `{}` via {}: tracing flag {} but set_tracing({})", g.op, g.via, f.flags & 0x02 != 0, g.tracing));
         }
         let want_paging = if n == 0 { None } else { Some(vec![n as u8]) };
         if g.op != "batch" && paging != want_paging {
             ctx.fail(format!("frame {n} carries paging state {paging:?}, the server's previous answer was {want_paging:?}"));
         }
+        // skip_metadata: only with cached columns and the caller's (or the CachingSession's) consent; never on QUERY
+        let want_skip = match f.opcode {
+            0x0A => Some(g.uc),
+            0x07 => Some(false),
+            _ => None,
+        };
+        if skip != want_skip {
+            ctx.fail(format!("frame {n} of `{}` via {}: skip_metadata {skip:?}, use_cached_result_metadata was {}", g.op, g.via, g.uc));
+        }
+        let is_execute_path = g.op.starts_with("queryv") || g.op.starts_with("execute");
+        if is_execute_path && f.opcode != 0x0A || (g.op.starts_with("query_") && f.opcode != 0x07) {
+            ctx.fail(format!("`{}` sent a frame with opcode {:#04x}", g.op, f.opcode));
+        }
         out.push(format!(
-            "{:02x}:{}:{}:{}:{}:{}:{}",
+            "{:02x}:{}:{}:{}:{}:{}:{}:{}{}",
             f.opcode,
             cons,
             serial.map(|s| s.to_string()).unwrap_or("-".into()),
             ps.map(|s| s.to_string()).unwrap_or("-".into()),
             (f.flags >> 1) & 1,
             ts.map(|s| s.to_string()).unwrap_or("-".into()),
-            paging.map(|p| hex(&p)).unwrap_or("N".into())
+            paging.map(|p| hex(&p)).unwrap_or("N".into()),
+            skip.map(|b| (b as u8).to_string()).unwrap_or("-".into()),
+            if f.opcode == 0x0D { format!(":{}", hex(&f.body)) } else { String::new() }
         ));
         n += 1;
     }
     let want_frames = if g.op.ends_with("_iter") { g.pages } else { 1 };
     if n != want_frames {
-        ctx.fail(format!("`{}` over {} page(s): the node saw {n} statement frames, expected {want_frames}", g.op, g.pages));
+        ctx.fail(format!("`{}` via {} over {} page(s): the node saw {n} statement frames, expected {want_frames}", g.op, g.via, g.pages));
     }
-    format!("identity={} frames={} {}", identity_line.unwrap_or_default(), n, out.join(" ")).trim_end().to_owned()
+    format!("identity={} ptr={ptr} frames={} {}", identity_line.unwrap_or_default(), n, out.join(" ")).trim_end().to_owned()
 }
 
 pub(super) fn generate(rng: &mut Rng, tier: Tier, emit: &mut dyn FnMut(String)) {
-    let ops = ["query_unpaged", "query_page", "query_iter", "execute_unpaged", "execute_page", "execute_iter", "batch"];
-    // decision table: statement consistency set / unset x serial D / N / Serial x statement profile none / given, per op
-    for op in ops {
+    let ids = format!("{},{}", hex(&crate::mocknode::md5ish(INSERT)), hex(&crate::mocknode::md5ish(TEXT2)));
+    // (op, via) combinations
+    let mut combos: Vec<(String, &str)> = Vec::new();
+    for k in ["unpaged", "page", "iter"] {
+        combos.push((format!("query_{k}"), "-"));
+        combos.push((format!("queryv_{k}"), "-"));
+        for via in ["handle", "stmt", "cmiss", "chit"] {
+            combos.push((format!("execute_{k}"), via));
+        }
+    }
+    for via in ["handle", "cmiss", "chit"] {
+        combos.push(("batch".to_string(), via));
+    }
+    // decision table: statement consistency set / unset x serial D / N / Serial x statement profile none / given, per combo
+    for (op, via) in &combos {
         for cons in ["N", "Two"] {
             for serial in ["D", "N", "Serial"] {
-                for sp in ["-", "All/N", "One/LocalSerial"] {
-                    emit(format!("glue LocalQuorum LocalSerial {sp} N N N N N N {op} {cons} {serial} N 0 7 {}", if op.ends_with("_iter") { 2 } else { 1 }));
+                for sp in ["-", "One/LocalSerial"] {
+                    let pages = if op.ends_with("_iter") { 2 } else { 1 };
+                    let (ts, tr) = if cons == "N" { ("N", 0) } else { ("-77", 1) };
+                    emit(format!("glue LocalQuorum LocalSerial {sp} N N N N N N {op} {cons} {serial} {ts} {tr} 7 {pages} {via} 0 {ids}"));
                 }
             }
         }
     }
-    let n = if tier == Tier::Quick { 80 } else { 800 };
+    let n = if tier == Tier::Quick { 150 } else { 1500 };
     let idv = |rng: &mut Rng| -> String {
         if rng.chance(2, 3) { "N".into() } else { hex(rng.pick(&["my-app", "1.2.3", "x", "ScyllaDB Rust Driver", "a b c", "client-42"]).as_bytes()) }
     };
     for _ in 0..n {
         let sp = if rng.bool() { "-".to_string() } else { format!("{}/{}", rng.pick(&CONS_NAMES[..8]), rng.pick(&["N", "Serial", "LocalSerial"])) };
-        let op = *rng.pick(&ops);
+        let (op, via) = rng.pick(&combos).clone();
+        let uc = if op.starts_with("execute") { rng.below(2) } else { 0 };
         emit(format!(
-            "glue {} {} {sp} {} {} {} {} {} {} {op} {} {} {} {} {} {}",
+            "glue {} {} {sp} {} {} {} {} {} {} {op} {} {} {} {} {} {} {via} {uc} {ids}",
             rng.pick(&CONS_NAMES[..8]),
             rng.pick(&["N", "Serial", "LocalSerial"]),
             if rng.bool() { "N".to_string() } else { rng.i64_boundary().to_string() },
